@@ -1,7 +1,7 @@
 """Shared pieces of the symbolic executor: paths, obligations, exceptions, solver helpers."""
 import time
 import z3
-from .theory import THEORY
+from .theory import THEORY, all_axioms
 
 
 class Unsupported(Exception):
@@ -66,7 +66,7 @@ def new_solver(timeout_ms):
     s.set("mbqi", False)
     s.set("timeout", timeout_ms)
     s.set("random_seed", 7)
-    for a in THEORY.values():
+    for a in all_axioms().values():
         s.add(a)
     return s
 
